@@ -232,7 +232,7 @@ def run_case(case):
                 for e in r2.trace.main("ficlone"):
                     if e.ret == 0:
                         rel = ops.relw(rd2, e.path)
-                        if rel is not None and ops.TEMP_RE.match(rel) is None:
+                        if rel is not None and rel in b2:
                             dropset.add(rel)
             clean_processed = ops.processed_count(r2)
 
@@ -310,9 +310,9 @@ def run_case(case):
                             rel = ops.relw(rd, pp) if pp else None
                             if rel is None:
                                 continue
-                            m = ops.TEMP_RE.match(rel)
-                            if m:
-                                rel = m.group(1)
+                            own = ops.temp_owner(rel, set(before))
+                            if own is not None:
+                                rel = own
                             if rel in dropset:
                                 touched.add(rel)
                             if rel.startswith(b"T" + rd.wb()):
@@ -337,8 +337,8 @@ def run_case(case):
             "faults": ops.fault_counts([res.trace]),
             "probes": {
                 "crashed": int(crashed),
-                "temp_sibling_observed_after_crash": int(crashed and any(ops.temp_siblings(after, p) and [t for t in ops.temp_siblings(after, p) if t not in before] for p in dropset)),
-                "rollback_executed": int(any(e.kind == "rename" and ops.TEMP_RE.match(e.path) for e in res.trace.main("rename"))),
+                "temp_sibling_observed_after_crash": int(crashed and any(ops.temp_owner(t, set(before)) in dropset for t in after if t not in before)),
+                "rollback_executed": int(any(e.kind == "rename" and e.ret == 0 and ops.temp_owner(ops.relw(rd, e.path) or b"", set(before)) is not None for e in res.trace.main("rename"))),
                 "copy_fallback_taken": int(op == "move" and any(e.kind in ("copyrange", "sendfile") for e in res.trace.mutating())),
                 "second_fault_fired": int(len(fired) >= 2),
             },
